@@ -18,7 +18,7 @@ ASSUMPTIONS = ["numpy / CPython behave as documented", "grid shapes are passed a
                "lattice_dim=2 only"]
 NSHARDS = {"quick": 16, "thorough": 16}
 THRESHOLDS = {
-    "quick": {"repotests:ambient:gen:gen_dfs?repotests:runs": 50, "c01:percolation-volume": 150, "c01:extreme-draws": 40, "c01:shape-dtype:int8": 300, "c01:shape-dtype:uint8": 300, "c01:gen_dfs": 200, "c01:gen_prim": 200, "c01:gen_wilson": 200, "c01:gen_percolation": 200,
+    "quick": {"repotests:ambient:gen:gen_dfs?repotests:runs": 50, "c01:percolation-volume": 150, "c01:percolation-volume:side>127": 60, "c01:extreme-draws": 40, "c01:shape-dtype:int8": 300, "c01:shape-dtype:uint8": 300, "c01:gen_dfs": 200, "c01:gen_prim": 200, "c01:gen_wilson": 200, "c01:gen_percolation": 200,
               "c01:gen_dfs_percolation": 200, "c01:oblong": 1, "c01:one-by-n": 1, "c01:p0": 1, "c01:p1": 1,
               "c01:spanning-checked:dfs": 100, "c01:spanning-checked:wilson": 100, "c01:consumed-stream": 50,
               "hits:gen_dfs": 1, "hits:gen_wilson": 1, "hits:gen_percolation": 1, "hits:gen_dfs_percolation": 1,
@@ -156,13 +156,17 @@ def _percolation_volume(ctx):
     for j in range(n):
         if not ctx.mine(j):
             continue
-        R, C = [(40, 40), (20, 90), (64, 16), (33, 33)][j % 4] if ctx.quick or j % 40 else (300, 300)
+        # (thin grids with one side past 127 / 255 / 256 / 512: whatever the generator does per row or per block of rows)
+        R, C = [(40, 40), (20, 90), (64, 16), (33, 33), (257, 3), (3, 257), (300, 4), (513, 2), (2, 600), (1000, 2), (129, 5), (5, 255)][j % 12] if ctx.quick or j % 40 else (300, 300)
         p = [1, 1.0, 0, 0.0, 1.0, 1.0][j % 6]
         seed = ctx.case_seed("vol", j) % (2**32)
         np.random.seed(seed)
-        case = dict(gen="gen_percolation", shape=(R, C), kwargs=dict(p=p), numpy_seed=seed)
+        gname = "gen_dfs_percolation" if (j // 12) % 3 == 2 and p != 0 else "gen_percolation"
+        case = dict(gen=gname, shape=(R, C), kwargs=dict(p=p), numpy_seed=seed)
+        if max(R, C) > 127:
+            ctx.tally("c01:percolation-volume:side>127")
         with ctx.guard("C01/gen_percolation/call", case):
-            cl = LatticeMazeGenerators.gen_percolation(np.array([R, C]), p=p).connection_list
+            cl = getattr(LatticeMazeGenerators, gname)(np.array([R, C]), p=p).connection_list
             ctx.ev(); ctx.tally("c01:percolation-volume"); ctx.tally("c01:percolation-volume-edge-draws", 2 * R * C)
             ok_shape = isinstance(cl, np.ndarray) and cl.dtype == np.bool_ and cl.shape == (2, R, C)
             if not ctx.check(ok_shape, "C01/gen_percolation/shape", f"{getattr(cl, 'shape', None)} {getattr(cl, 'dtype', None)}", case):
